@@ -35,8 +35,11 @@ impl Monitor for C08 {
         cfg.maxroot = 3;
         let (u, mut p) = gener::generate(r, &cfg);
         p = p.hard();
-        // only single version set root requirements
-        p.reqs.retain(|r| matches!(r, Req::Single(_)));
+        // most cases: only single version set root requirements; a sixth of the cases keeps root
+        // unions next to them; those are outside the quantifier and only counted
+        if !r.chance(1, 6) {
+            p.reqs.retain(|r| matches!(r, Req::Single(_)));
+        }
         let mut runs = standard_runs(r, 1);
         for o in &mut runs {
             if r.chance(2, 3) {
@@ -53,8 +56,13 @@ impl Monitor for C08 {
         let rf = Ref::new(&u);
         let h = u.content_hash(&c.p);
         ctx.rep.distinct.insert(h);
-        let firsts: Vec<u32> = c.p.reqs.iter().filter_map(|&r| rf.sorted_req(r).first().copied()).collect();
-        if firsts.len() != c.p.reqs.len() {
+        let singles: Vec<Req> = c.p.reqs.iter().copied().filter(|r| matches!(r, Req::Single(_))).collect();
+        if singles.is_empty() {
+            return;
+        }
+        let has_union = singles.len() != c.p.reqs.len();
+        let firsts: Vec<u32> = singles.iter().filter_map(|&r| rf.sorted_req(r).first().copied()).collect();
+        if firsts.len() != singles.len() {
             ctx.rep.count("not-applicable:requirement-without-candidates");
             return;
         }
@@ -78,7 +86,12 @@ impl Monitor for C08 {
                 Outcome::Ok(sol) => {
                     let set: BTreeSet<u32> = sol.iter().copied().collect();
                     let missing: Vec<String> = firsts.iter().filter(|s| !set.contains(s)).map(|&s| u.solv_label(s)).collect();
-                    if !missing.is_empty() {
+                    if !missing.is_empty() && has_union {
+                        // outside the property's quantifier ("problems whose root requirements are
+                        // single version sets"): the solver decides a root union like any other
+                        // root requirement, and its choice can downgrade a single one. Counted, not judged.
+                        ctx.rep.count("observation:downgraded-next-to-a-root-union (outside the quantifier, not judged)");
+                    } else if !missing.is_empty() {
                         ctx.violation("direct-requirement-downgraded", format!("run {k} ({:?}, activity {:?}): best candidates {:?} missing from {:?}", opts.mode, opts.activity, missing, sol.iter().map(|&s| u.solv_label(s)).collect::<Vec<_>>()));
                     }
                     let hs = hook_stats(&sess);
